@@ -75,6 +75,10 @@ class C09:
             idents.append("".join(rng.choice(extra) for _ in range(rng.randint(4, 12))))
         for c in extra:
             idents.append(c)
+        # names that look like the files kept next to layer directories, or like paths: the grammars say nothing of them
+        for w in ["cache.toml", ".toml", "a.b.toml", "build.toml", "x.sbom.cdx.json", "store.toml", "launch.toml", "env", "exec.d",
+                  "tool/x", "../x", "a/b/c", ".", "..", "x.", "-", "_", "web.1", "worker.default"]:
+            idents.append(w)
         for n in (64, 250, 251, 256, 300, 1000):
             idents += ["x" * n, "a-b." * (n // 4), "build" + "x" * n]
         seen = set()
